@@ -172,7 +172,7 @@ func (e ev) term() string {
 	case evDone:
 		return fmt.Sprintf("EvDone %d %s %s", e.host, outTerm(e.o), hlib.Bool(e.still))
 	case evMark:
-		if e.markTag < 0 {
+		if e.markTag == -1 {
 			return fmt.Sprintf("EvMark %d None", e.host)
 		}
 		return fmt.Sprintf("EvMark %d (Some %s)", e.host, hlib.Z(e.markTag))
@@ -901,7 +901,7 @@ func monStep(hasPolicy bool, s mst, e ev) (mst, bool) {
 			return s, false
 		}
 		if s.o == nil || s.o.logical() {
-			if e.markTag < 0 {
+			if e.markTag == -1 {
 				return mst{q: qEnd}, true
 			}
 			return s, false
@@ -1877,6 +1877,14 @@ func main() {
 			for i := 0; i < n/2; i++ {
 				e.run(g.e2eScript(), "seq-end-to-end")
 			}
+			// the context ends while a PREPARE is outstanding (statement new to the host), retries still allowed
+			np := 16
+			if o.Scale > 1 {
+				np = 100
+			}
+			for i := 0; i < np; i++ {
+				e.runCaseAt(g.prepCancelScript(), "seq-end-to-end-prepare-cancel", true)
+			}
 			// speculative executions through the session on controlled schedules (answers held at the nodes)
 			for i := 0; i < n/4; i++ {
 				sched := make([]int, 12)
@@ -1894,11 +1902,11 @@ func main() {
 					sc := g.e2eScript()
 					sc.idem, sc.spk = true, int(o.Rng.Pick(1, 2, 3))
 					for j := range sc.outs {
-						if sc.outs[j].o != nil && sc.outs[j].o.kind == 0 {
+						if sc.outs[j].o != nil && sc.outs[j].o.kind <= 1 {
 							sc.outs[j].o = nil
 						}
 					}
-					if sc.dflt.o != nil && sc.dflt.o.kind == 0 {
+					if sc.dflt.o != nil && sc.dflt.o.kind <= 1 {
 						sc.dflt.o = nil
 					}
 					e.runFree(sc)
